@@ -1,2 +1,117 @@
-/-! line-protocol driver for property C03 (stub) -/
-def main (_args : List String) : IO Unit := pure ()
+import MirVerif.Model.Thunk
+/-! line-protocol driver for property C03 (`mirdrv_c03`).
+
+Input (one command per line, addresses in hex without prefix):
+  redir <a> <to>                 -> `redir <13 bytes hex> <target> <get> <S|L>`
+  decode <a> <bytes hex>         -> `decode <target|none> <get>`
+  u <addr>                       -> sets the address of `undefined_interface`
+  ev load <f>:<thunk> ...        -> MIR_load_module of a module with these functions
+  ev link <iface> <f>:<pub> ...  -> MIR_link under interp|gen|lazy|bb
+  ev set <iface> <f> <pub>       -> MIR_set_<iface>_interface (ctx, f)
+  ev call <f> <pub>              -> a call through item->addr
+  ev gen <f> <pub>               -> MIR_gen (ctx, f)
+  ev bbgen <f> <pub>
+after every `ev` line the state of every function seen so far is printed as
+  st <f> addr=<a|none> bytes=<hex> kind=<k> mc=<a|none> target=<a|none> get=<a> adm=<0|1>
+This is the same vocabulary `harness/c03_thunk.c` prints for the real library. -/
+open MirVerif MirVerif.Thunk
+
+namespace C03Drv
+
+def hexDigit (c : Char) : Option Nat :=
+  if '0' ≤ c ∧ c ≤ '9' then some (c.toNat - 48)
+  else if 'a' ≤ c ∧ c ≤ 'f' then some (c.toNat - 87)
+  else if 'A' ≤ c ∧ c ≤ 'F' then some (c.toNat - 55)
+  else none
+
+def parseHex (s : String) : Nat :=
+  s.toList.foldl (fun acc c => match hexDigit c with | some d => acc * 16 + d | none => acc) 0
+
+def hexChar (n : Nat) : Char := if n < 10 then Char.ofNat (48 + n) else Char.ofNat (87 + n)
+
+partial def toHexAux (n : Nat) (acc : List Char) : List Char :=
+  if n < 16 then hexChar n :: acc else toHexAux (n / 16) (hexChar (n % 16) :: acc)
+
+def toHex (n : Nat) : String := String.ofList (toHexAux n [])
+
+def w64 (s : String) : W64 := BitVec.ofNat 64 (parseHex s)
+
+def byteHex (b : Byte) : String := String.ofList [hexChar (b.toNat / 16), hexChar (b.toNat % 16)]
+def bytesHex (bs : List Byte) : String := String.join (bs.map byteHex)
+
+def parseBytes : List Char → List Byte
+  | a :: b :: rest => BitVec.ofNat 8 ((hexDigit a).getD 0 * 16 + (hexDigit b).getD 0) :: parseBytes rest
+  | _ => []
+
+def optHex : Option W64 → String
+  | some a => toHex a.toNat
+  | none => "none"
+
+def kindStr : Kind → String
+  | .undefined => "undefined" | .shim => "shim" | .lazyWrapper => "lazywrap" | .bbWrapper => "bbwrap"
+  | .code => "code" | .bbThunk => "bbthunk"
+
+def parseIface : String → Option Iface
+  | "interp" => some .interp | "gen" => some .gen | "lazy" => some .lazy | "bb" => some .lazyBB
+  | _ => none
+
+/-- `f:addr` pairs -/
+def parsePairs (ts : List String) : List (Nat × W64) :=
+  ts.filterMap fun t => match t.splitOn ":" with
+    | [f, a] => some (f.toNat!, w64 a)
+    | _ => none
+
+def lookupFn (ps : List (Nat × W64)) (f : Nat) : W64 := (ps.lookup f).getD 0
+
+structure DS where
+  u : W64 := 0
+  st : State := init
+  seen : List Nat := []
+
+def parseEvent (ts : List String) : Option (Event × List Nat) :=
+  match ts with
+  | "load" :: ps => let ps := parsePairs ps; some (.load (ps.map (·.1)) (lookupFn ps), ps.map (·.1))
+  | "link" :: i :: ps => (parseIface i).map fun i => (.link i (lookupFn (parsePairs ps)), [])
+  | ["set", i, f, p] => (parseIface i).map fun i => (.setIface i f.toNat! (w64 p), [f.toNat!])
+  | ["call", f, p] => some (.firstCall f.toNat! (w64 p), [f.toNat!])
+  | ["gen", f, p] => some (.gen f.toNat! (w64 p), [f.toNat!])
+  | ["bbgen", f, p] => some (.bbgen f.toNat! (w64 p), [f.toNat!])
+  | _ => none
+
+def stLine (s : State) (f : Nat) (adm : Bool) : String :=
+  let x := s f
+  s!"st {f} addr={optHex x.addr} bytes={bytesHex x.bytes} kind={kindStr x.kind} mc={optHex x.machineCode} " ++
+  s!"target={optHex (target s f)} get={toHex (getThunkAddr x.bytes).toNat} adm={if adm then 1 else 0}"
+
+def stepLine (d : DS) (ts : List String) : DS × List String :=
+  match ts with
+  | ["redir", a, t] =>
+    let a := w64 a; let t := w64 t
+    let bs := redirect a t
+    (d, [s!"redir {bytesHex bs} {optHex (thunkTarget a bs)} {toHex (getThunkAddr bs).toNat} {if shortP a t then "S" else "L"}"])
+  | ["decode", a, bs] =>
+    let bs := parseBytes bs.toList
+    (d, [s!"decode {optHex (thunkTarget (w64 a) bs)} {toHex (getThunkAddr bs).toNat}"])
+  | "u" :: a :: _ => ({ d with u := w64 a }, ["u ok"])
+  | "ev" :: rest =>
+    match parseEvent rest with
+    | some (e, fs) =>
+      let adm := admissible d.st e
+      let st' := step d.u d.st e
+      let seen := (d.seen ++ fs.filter (fun f => !d.seen.contains f)).mergeSort (· ≤ ·)
+      ({ d with st := st', seen := seen }, seen.map (fun f => stLine st' f adm) ++ ["end"])
+    | none => (d, ["bad-event"])
+  | [] => (d, [])
+  | _ => (d, ["bad-command"])
+
+partial def loop (h : IO.FS.Stream) (d : DS) : IO Unit := do
+  let line ← h.getLine
+  if line.isEmpty then return ()
+  let toks := (line.trimAscii.toString.splitOn " ").filter (· ≠ "")
+  let (d', out) := stepLine d toks
+  for o in out do IO.println o
+  loop h d'
+
+end C03Drv
+
+def main (_args : List String) : IO Unit := do C03Drv.loop (← IO.getStdin) {}
